@@ -14,7 +14,10 @@ def gen_case(rng):
     n = rng.choice([3, 4, 5, 6])
     return {'kind': 'initorder', 'names': rng.sample(NAMES, n), 'steps': rng.choice([0, 0, 1]),
             'values': [rng.randrange(1, 100) for _ in range(n)],
-            'mode': rng.choice(['order', 'order', 'other-composite', 'dict-values']),
+            'mode': rng.choice(['order', 'order', 'other-composite', 'dict-values', 'list-units', 'merge-path',
+                                'merge-path']),
+            'n': rng.choice([1, 1, 2, 3]), 'second': rng.choice(['meter', 'gram', 'none']),
+            'depth': rng.choice([1, 2, 3]), 'via': rng.choice(['state', 'composite']),
             'dicts': rng.choice([['sub', 'super'], ['super', 'sub'], ['same', 'same'], ['sub', 'other']])}
 
 
@@ -26,7 +29,14 @@ def corpus():
              'mode': 'other-composite'},
             # dictionary `_value` declarations that differ (one a strict superset of the other) are incompatible
             {'kind': 'initorder', 'names': ['alpha', 'beta'], 'steps': 0, 'values': [1, 2], 'mode': 'dict-values',
-             'dicts': ['sub', 'super']}]
+             'dicts': ['sub', 'super']},
+            # a default that is a list of quantities gives the variable its units, whatever the length of the list
+            {'kind': 'initorder', 'mode': 'list-units', 'n': 1, 'second': 'meter'},
+            {'kind': 'initorder', 'mode': 'list-units', 'n': 1, 'second': 'none'},
+            {'kind': 'initorder', 'mode': 'list-units', 'n': 2, 'second': 'gram'},
+            # a state merged in together with a path belongs below that path
+            {'kind': 'initorder', 'mode': 'merge-path', 'depth': 2, 'via': 'state', 'values': [10, 20]},
+            {'kind': 'initorder', 'mode': 'merge-path', 'depth': 1, 'via': 'composite', 'values': [10, 20]}]
 
 
 def run_impl(case):
@@ -82,6 +92,59 @@ def run_impl(case):
             obs['built'] = False
             obs['error'] = type(e).__name__
         return obs
+    if case.get('mode') == 'list-units':
+        from vivarium.library.units import units
+
+        class L(Process):
+            defaults = {'x': {}}
+
+            def ports_schema(self):
+                return {'s': {'x': dict(self.parameters['x'])}}
+
+            def next_update(self, timestep, states):
+                return {}
+        grams = [float(i + 1) * units.g for i in range(case['n'])]
+        second = {'meter': {'_units': units.m, '_updater': 'set'},
+                  'gram': {'_default': list(grams), '_units': units.g}, 'none': {'_emit': True}}[case['second']]
+        try:
+            eng = Engine(processes={'first': L({'x': {'_default': list(grams)}}), 'second': L({'x': second})},
+                         topology={'first': {'s': ('s',)}, 'second': {'s': ('s',)}}, emitter={'type': 'null'},
+                         display_info=False, progress_bar=False)
+            node = eng.state.get_path(('s', 'x'))
+            obs['built'] = True
+            obs['units'] = str(node.units)
+            obs['value_ok'] = node.value == grams
+        except Exception as e:  # noqa
+            obs['built'] = False
+            obs['error'] = type(e).__name__
+        return obs
+    if case.get('mode') == 'merge-path':
+        v0, v1 = case['values'][:2]
+        path = ('agents', '1', 'cell')[:case['depth']]
+        try:
+            comp = Composite({'processes': {'root': P({'v': 0})}, 'topology': {'root': {'s': ('s',)}}})
+            sub = {'processes': {'inner': P({'v': 0})}, 'topology': {'inner': {'s': ('s',)}}}
+            if case['via'] == 'state':
+                comp.merge(composite=Composite(sub), path=path, state={'s': {'x': v1}})
+            else:
+                comp.merge(composite=Composite(dict(sub, state={'s': {'x': v1}})), path=path)
+            comp.merge(state={'s': {'x': v0}})
+            eng = Engine(composite=comp, emitter={'type': 'null'}, display_info=False, progress_bar=False)
+            state = eng.state.get_value()
+            node = state
+            for seg in path:
+                node = node[seg]
+            obs['root'] = state['s']['x']
+            obs['below'] = node['s']['x']
+            ini = comp.initial_state()
+            node = ini
+            for seg in path:
+                node = node.get(seg, {})
+            obs['initial_below'] = node.get('s', {}).get('x')
+            obs['initial_root'] = ini.get('s', {}).get('x')
+        except Exception as e:  # noqa
+            obs['raised'] = f'{type(e).__name__}: {str(e)[:200]}'
+        return obs
     try:
         if case.get('mode') == 'other-composite':
             # an unrelated composite, built earlier, into which a state is merged
@@ -116,6 +179,30 @@ def oracle(case, impl):
             return [f'incompatible-values: two processes declare `_value` {a!r} and {b!r} dictionaries for one '
                     f'variable; construction {"succeeded" if impl["built"] else "raised " + str(impl.get("error"))}, '
                     f'declarations that differ must be rejected and equal ones accepted']
+        return []
+    if case.get('mode') == 'list-units':
+        n, second = case['n'], case['second']
+        if second == 'meter':
+            if impl['built']:
+                return [f'incompatible-units: a default that is a list of {n} quantities in gram and a declaration of '
+                        f'`_units` meter for the same variable were accepted (the variable has units '
+                        f'{impl["units"]}); incompatible units must be rejected at construction']
+            return []
+        if not impl['built']:
+            return [f'compatible-units: declarations that agree (list of {n} quantities in gram, second: {second}) '
+                    f'raised {impl.get("error")}']
+        if impl['units'] != 'gram' or not impl['value_ok']:
+            return [f'units-of-default: a variable declared with a default of {n} quantities in gram has units '
+                    f'{impl["units"]}' + ('' if impl['value_ok'] else ' and another value than its default')]
+        return []
+    if case.get('mode') == 'merge-path':
+        v0, v1 = case['values'][:2]
+        got = (impl['root'], impl['below'], impl['initial_root'], impl['initial_below'])
+        if got != (v0, v1, v0, v1):
+            return [f'merge-path: a sub-model merged at depth {case["depth"]} with the state x={v1} (via '
+                    f'{case["via"]}) and a root state x={v0}: the engine starts from root x={impl["root"]}, below the '
+                    f'path x={impl["below"]}; initial_state() gives root {impl["initial_root"]}, below '
+                    f'{impl["initial_below"]}']
         return []
     want = case['values'][-1]          # processes in declaration order, then steps: the last declared wins
     if impl['initial'] != want or impl['engine'] != want:
